@@ -21,4 +21,24 @@ theorem max_short_read_witness :
     CocoVerif.Model.Img.max {} [0, 0, 64, 0, 0, 255, 255]
       = .ok (ppmHeader "P6" 256 2 ++ List.replicate 48 255) := by rfl
 
+/-- MGE, **arbitrary bytes**: a successful run either went through the run-length branch (the known
+finding `mge-rle-total-not-32000` lives there) or wrote the complete 320 × 200 image -/
+theorem mge_raw_complete_partial (bs out : List Nat) (hok : mge bs = .ok out) :
+    (∃ pal rest body, mgeRle pal rest 32000 = .ok body ∧ out = ppmHeader "P6" 320 200 ++ body)
+    ∨ ∃ payload, out = ppmHeader "P6" 320 200 ++ payload ∧ payload.length = 3 * 320 * 200 := by
+  unfold mge at hok
+  simp only [bind, Except.bind, pure, Except.pure] at hok
+  repeat' (split at hok <;> try (simp at hok; done))
+  all_goals first
+    | (left
+       simp only [Except.ok.injEq] at hok
+       rename_i body hbody
+       exact ⟨_, _, body, hbody, hok.symm⟩)
+    | (right
+       simp only [Except.ok.injEq] at hok
+       rename_i v hv
+       obtain ⟨body, rd, r⟩ := v
+       have := (readDump_spec _ _ _ _ _ _ hv).1
+       exact ⟨body, hok.symm, by rw [this]⟩)
+
 end CocoVerif.Props.C19
